@@ -16,6 +16,12 @@ Theorem fieldwise_is_the_interpreted_loop : forall e start (fs : list (string * 
               (map (fun _ => None) fs) s pos bb vals sizes lctx)
   = do r <- fieldwise e (map snd fs) s pos; Ok (map snd (rev vals) ++ fst r, snd r).
 Proof. exact struct_loop_scalars. Qed.
+(* HOWEVER the generator groups consecutive scalar members into blocks (the grouping depends on offsets, alignment and neighbouring members),
+   reading block after block is reading the members one by one *)
+Theorem any_grouping_into_blocks_is_fieldwise : forall e blocks s pos,
+  Forall (fun b => Forall (fun p => fixed_scalar p <> None) b /\ Z.of_nat (fmt_size b) <= 9223372036854775807) blocks -> 0 <= pos ->
+  blocks_read e blocks s pos = fieldwise e (List.concat blocks) s pos.
+Proof. exact any_blocking_is_fieldwise. Qed.
 (* the same for arrays of packed scalars (Packed._read_array, also used by the generated code) *)
 Theorem array_unpack_is_elementwise : forall c p sz, fixed_scalar p = Some sz -> forall n s pos ctx,
   0 <= pos -> 0 <= n -> Z.of_nat sz * n <= 9223372036854775807 ->
@@ -23,6 +29,7 @@ Theorem array_unpack_is_elementwise : forall c p sz, fixed_scalar p = Some sz ->
 Proof. exact bulk_is_sequential. Qed.
 
 Print Assumptions block_unpack_is_fieldwise.
+Print Assumptions any_grouping_into_blocks_is_fieldwise.
 Print Assumptions fieldwise_is_the_interpreted_loop.
 
 Example ex_block : block_read "<" [PInt 2 false true; PInt 1 true true; PFloat 4] [1; 2; 255; 0; 0; 128; 63; 9] 0
